@@ -30,6 +30,7 @@ type ConcCfg struct {
 	Yield    bool
 	LowChild bool // children with inode numbers below their directory's
 	NoCheck  bool // skip porcupine (race detector runs)
+	BigBias  bool // many truncations/removals of the big file (frees in flight)
 	Focus    bool // namespace races on two names in one directory whose children have smaller numbers
 	Procs    int
 }
@@ -192,6 +193,17 @@ func genConcOp(r *Rng, w *world, mine *[][]byte, uid *uint64, cfg ConcCfg) *Op {
 			return &Op{K: OpReaddirplus, H: d, Count: 1 << 20, Dircount: 1 << 20}
 		}
 	}
+	if cfg.BigBias && w.big != nil && r.Intn(4) == 0 {
+		switch r.Intn(4) {
+		case 0:
+			return &Op{K: OpRemove, H: w.dirs[0], Name: "big"}
+		case 1:
+			*uid++
+			return &Op{K: OpWrite, H: w.big, Off: r.Pick([]uint64{0, 100 * BlockSize, 550 * BlockSize}), Count: 4096, DataLen: 4096, Uid: *uid, Stable: r.Intn(3)}
+		default:
+			return &Op{K: OpSetattr, H: w.big, SetSize: true, Size: r.Pick([]uint64{0, 5000, 20 * BlockSize, 300 * BlockSize, 590 * BlockSize})}
+		}
+	}
 	switch x := r.Intn(100); {
 	case x < 14:
 		return &Op{K: OpCreate, H: dir(), Name: name(), Mode: r.Intn(2)}
@@ -344,7 +356,7 @@ func runOneHistory(cfg ConcCfg, seed uint64, cas, h int, res *ConcRes) {
 		uid++
 		s.exec(&Op{K: OpWrite, H: f, Off: 0, Count: 6000, DataLen: 6000, Uid: uid, Stable: 2})
 	}
-	if cfg.BigFile && rng.Intn(2) == 0 {
+	if cfg.BigFile && (cfg.BigBias || rng.Intn(2) == 0) {
 		w.big = mk(OpCreate, srv.Root, "big")
 		for k := 0; k < 10 && w.big != nil; k++ {
 			uid++
